@@ -32,7 +32,76 @@ func scaleCases(tier string) []scalekit.Case {
 	for _, n := range scale.Sizes(40, 129) {
 		out = append(out, scalekit.Case{Shape: "many-imports", N: n})
 	}
+	// deviations through an import that pins one of several loaded revisions of the target module
+	for v := 0; v < len(pinnedDevs)*2*3; v++ {
+		out = append(out, scalekit.Case{Shape: "pinned-revision", N: 1, V: v})
+	}
 	return out
+}
+
+var pinnedDevs = [][2]string{
+	{"l", "deviate not-supported;"}, {"l", "deviate replace { default e; }"}, {"l", "deviate delete { default d; }"},
+	{"c/x", "deviate not-supported;"}, {"c/x", "deviate replace { type int8; }"}, {"c/x", "deviate add { default q; }"},
+	{"ll", "deviate replace { max-elements 3; }"}, {"ll", "deviate add { min-elements 1; }"},
+	{"c", "deviate not-supported;"}, {"c", "deviate replace { config false; }"},
+}
+
+// checkPinned: revisions 2019, 2020 and 2021 of module a are loaded, the deviating module imports a
+// with the revision-date V selects (or without one: the latest); the tree of that revision changes
+// at the target and below it, the trees of the other revisions do not change at all.
+func checkPinned(cs scalekit.Case) scalekit.Verdict {
+	d := pinnedDevs[cs.V%len(pinnedDevs)]
+	reverse := cs.V/len(pinnedDevs)%2 == 1
+	pin := []string{"2019-01-01", "2020-01-01", ""}[cs.V/len(pinnedDevs)/2%3]
+	var files []dump.File
+	revs := []string{"2019-01-01", "2020-01-01", "2021-01-01"}
+	for i, r := range revs {
+		files = append(files, dump.File{Name: "a@" + r + ".yang", Text: fmt.Sprintf(`module a { namespace "urn:a"; prefix a; revision %s; leaf l { type string; default d; units u; } container c { leaf x { type string; } } leaf-list ll { type string; max-elements 5; } leaf r%d { type string; } }`, r, i)})
+	}
+	stmt := ""
+	if pin != "" {
+		stmt = " revision-date " + pin + ";"
+	}
+	devFile := dump.File{Name: "dev.yang", Text: fmt.Sprintf(`module dev { namespace "urn:dev"; prefix dev; import a { prefix a;%s } deviation /a:%s { %s } }`, stmt, strings.ReplaceAll(d[0], "/", "/a:"), d[1])}
+	flatOf := func(ms *yang.Modules, key string) map[string]string { return flatTree(yang.ToEntry(ms.Modules[key])) }
+	base, errs, lerr := scalekit.Load(files, reverse)
+	if lerr != nil || len(errs) > 0 {
+		return scalekit.Bad("load-error", "three revisions load", fmt.Sprint(lerr, errs))
+	}
+	ms, errs, lerr := scalekit.Load(append(append([]dump.File{}, files...), devFile), reverse)
+	if lerr != nil {
+		return scalekit.Bad("load-error", "loads", lerr.Error())
+	}
+	if len(errs) > 0 {
+		return scalekit.Bad("applicable-deviation-reported", "no errors", dump.Errors(errs))
+	}
+	target := pin
+	if target == "" {
+		target = "2021-01-01"
+	}
+	for _, key := range []string{"a@2019-01-01", "a@2020-01-01", "a@2021-01-01", "a"} {
+		before, after := flatOf(base, key), flatOf(ms, key)
+		hit := key == "a@"+target || (key == "a" && target == "2021-01-01")
+		changed := false
+		for p, l := range before {
+			under := p == "/"+d[0] || strings.HasPrefix(p, "/"+d[0]+"/")
+			if after[p] != l {
+				if !hit || !under {
+					return scalekit.Bad("deviation-applied-to-another-revision-or-node", fmt.Sprintf("%s%s unchanged (import pins %q)", key, p, pin), after[p])
+				}
+				changed = true
+			}
+		}
+		for p := range after {
+			if _, ok := before[p]; !ok {
+				return scalekit.Bad("deviation-applied-to-another-revision-or-node", "no new node", key+p)
+			}
+		}
+		if hit && !changed {
+			return scalekit.Bad("deviation-not-applied-to-the-revision-the-import-selects", fmt.Sprintf("%s/%s changed by %s", key, d[0], d[1]), "unchanged")
+		}
+	}
+	return scalekit.OK()
 }
 
 func checkManyDeviations(cs scalekit.Case) scalekit.Verdict {
@@ -81,6 +150,9 @@ func flatTree(e *yang.Entry) map[string]string {
 }
 
 func checkScale(cs scalekit.Case) scalekit.Verdict {
+	if cs.Shape == "pinned-revision" {
+		return checkPinned(cs)
+	}
 	if cs.Shape == "many-imports" {
 		// a deviating module with n imports (prefixes that sort unlike the module names) and one
 		// deviation through each prefix
